@@ -29,7 +29,7 @@ CHECKS = {
  "C20": dict(cat="exploration", tech="round-trip runtime monitor: COPY TO then COPY FROM, multiset comparison of typed cells",
    text="Random column type lists (12 types), contents with NULLs and delimiter/quote/newline characters, and CSV options; the re-imported table must equal the exported one.",
    note="Decimals compared by value. Empty strings and HEADER only through the sentinels of their known findings.", ref="6 C20"),
- "C04": dict(cat="fault_enumeration", tech="crash-point enumeration through persistence hooks (directory snapshots + torn prefixes) with recovery in fresh processes vs a model; thorough tier adds sanitizer overlays of the same workload (ASan), reports with risinglight frames are violations",
+ "C04": dict(cat="fault_enumeration", tech="crash-point enumeration through persistence hooks (directory snapshots + torn prefixes) with recovery in fresh processes vs a model, new statements and a second open of every recovered state; thorough tier adds sanitizer overlays of the same workload (ASan), reports with risinglight frames are violations",
    text="Every persistence step executed by a workload is a crash state (directory copy taken inside the hook), plus torn variants of the file/manifest record in flight; each is recovered by a fresh process and must equal model(acked) or model(acked+interrupted); the interrupted statement is retried, new statements must succeed, and crashes during the recovery itself must recover to the same state.",
    note="Process death only (no loss of un-fsynced page cache). The hook runs on the thread performing the step, so the copy is exactly what a kill at that point leaves.", ref="6 C04"),
  "C15": dict(cat="fault_enumeration", tech="fault injection at the per-operator output hook (error|panic at chunk k / end of stream) + differential against the fault-free run",
@@ -41,8 +41,8 @@ CHECKS = {
  "C09": dict(cat="exploration", tech="schedule-perturbed concurrency runs with an order-independent conservation oracle (unique ids: final = acked inserts - acked deletes); thorough tier adds sanitizer overlays of the same workload (ASan), reports with risinglight frames are violations",
    text="2-4 SQL clients insert unique ids and delete ids they saw acknowledged while compaction/vacuum passes run at perturbed / gated hook points inside Compactor::run and transaction start/commit; the final content (and the content after reopen) must be acked inserts minus acked deletes; failed statements must have no effect.",
    note="Conflict errors of DELETE vs compaction are unacknowledged statements. Current-thread + paused clock; long parking sleeps let whole compactor passes run inside a statement.", ref="6 C09"),
- "C10": dict(cat="exploration", tech="client-boundary history recording + offline serial-order search (DFS with memoisation) against a sequential model; multi-thread stress legs; thorough tier adds sanitizer overlays of the same workload (ASan + TSan), reports with risinglight frames are violations",
-   text="2-4 sessions with CREATE/DROP TABLE on colliding names, INSERT, DELETE by id and by predicate (overlapping between sessions), SELECT run concurrently on current-thread (perturbed) and multi-thread (2-16 workers) runtimes; a checker searches for a serial order consistent with session order that reproduces every acknowledged result, explains every failure and yields the final state, which must also be there after reopen; panics and stuck sessions are violations.",
+ "C10": dict(cat="exploration", tech="client-boundary history recording + offline serial-order search (DFS with memoisation) against a sequential model; legs: hook-perturbed / gated current-thread runtime, multi-thread stress, the real PostgreSQL-protocol server over TCP (own wire client, SIGKILL + reopen), DDL churn with a preemption hook in the binder; thorough tier adds sanitizer overlays of the same workload (ASan + TSan), reports with risinglight frames are violations",
+   text="2-4 sessions with CREATE/DROP TABLE on colliding names, INSERT, DELETE by id and by predicate (overlapping between sessions), SELECT run concurrently on current-thread (perturbed, 40% with several row-sets, pauses, 3-4 compactor passes and one directed gate), multi-thread (2-16 workers) runtimes and through risinglight::server::run_server (one TCP connection per session); a checker searches for a serial order consistent with session order that reproduces every acknowledged result, explains every failure and yields the final state, which must also be there after reopen; panics and stuck sessions are violations.",
    note="Per-session order only. Search budget exhaustion is inconclusive. Multi-thread legs are stress. A history explained only by the weaker stale-delete-snapshot model is the open known finding; any other unexplained history is a violation.", ref="6 C10"),
  "C01": dict(cat="exploration", tech="differential runtime monitoring (optimizer on vs off on the live database) + single-rule translation checks executed on real data, rule attribution through the optimizer hook",
    text="Leg A: generated queries with PRAGMA enable/disable_optimizer on memory and disk layouts, real or mocked statistics; disagreements are attributed by bisecting the hook's rule deny-list. Leg B: each rewrite rule applied alone at single matches on a growing pool of plans (bound, optimized, previously validated rewrites), both sides executed by the real executor. Evidence names the rules fired, validated alone, and never reached.",
@@ -50,9 +50,9 @@ CHECKS = {
  "C11": dict(cat="exploration", tech="differential runtime monitoring of hand-built physical plans through executor::build + independent Python nested-loop/group-by reference",
    text="For the same inputs, nested-loop / hash / merge join of every join type, simple / hash / sort aggregation and limit-over-order vs top-N are executed by the real executor on tables with chosen chunking, NULL and duplicate keys, INT vs BIGINT keys, empty sides; all implementations must agree with each other and with the reference.",
    note="Plans are built through the public Expr enum; hash/merge join of inner/outer type only with a true residual (executor contract).", ref="6 C11"),
- "C14": dict(cat="exploration", tech="kernel-level runtime monitor against an independent scalar interpreter (arbitrary raw bits under NULL) + optimizer on/off differential for constant folding; thorough tier adds sanitizer overlays of the same workload (ASan + Miri), reports with risinglight frames are violations",
+ "C14": dict(cat="exploration", tech="kernel-level runtime monitor against an independent scalar interpreter (arbitrary raw bits under NULL) + metamorphic row-isolation monitor over every array kernel (row in a batch vs the row alone) + optimizer on/off differential for constant folding + predicate leg vs a Python 3VL evaluator; thorough tier adds sanitizer overlays of the same workload (ASan + Miri), reports with risinglight frames are violations",
    text="Array kernels (arithmetic, comparison, AND/OR/NOT, ||, unary minus, CASE selection, integer casts) over all accepted operand type combinations on batches of 0..200 rows with NULL slots carrying arbitrary raw bits are judged row by row against a scalar SQL interpreter; overflow must be an error, x/0 NULL, a row alone must equal the row in its batch. Constant expressions: folded (optimizer on) vs run-time (off).",
-   note="NaN/inf not used in comparisons. LIKE/substring/extract are not driven by the kernel leg.", ref="6 C14"),
+   note="NaN/inf not used in comparisons of the scalar-interpreter leg. LIKE / SUBSTRING / EXTRACT / REPLACE / REPEAT / casts other than integer ones / vector distances are decided by the row-isolation leg only (batch-independence, not absolute semantics).", ref="6 C14"),
  "C19": dict(cat="exploration", tech="law-checking runtime monitor over value pools + cross-implementation coherence through SQL on both engines; thorough tier adds sanitizer overlays of the same workload (ASan + Miri), reports with risinglight frames are violations",
    text="Equality/order/hash laws over all pairs and triples of boundary+random pools of 13 types, comparison kernels vs DataValue::cmp, print->parse through the string cast and the CSV field parser; SQL leg: ORDER BY, <, join equality, GROUP BY, DISTINCT, MIN/MAX must induce the same relations on stored values on both engines.",
    note="Calendar values from SQL-reachable ranges. Cells compared as printed (decimals by value, -0.0 = 0.0).", ref="6 C19"),
@@ -62,7 +62,7 @@ CHECKS = {
  "C16": dict(cat="exploration", tech="runtime type monitor (static plan types vs runtime array variants) + INSERT round-trip monitor with a value-equality oracle",
    text="Leg A: for executed queries the runtime array variant of every result column and every chunk width are compared with the static types the planner derives on the live catalog. Leg B: INSERTs with implicit conversions (VALUES, column subsets, INSERT..SELECT) into columns of 8 types on both engines are read back: declared variant, NULL only if nullable, value equal to the inserted one, otherwise the statement must have failed.",
    note="A rejected INSERT is always acceptable. Lossy float->integer and number->boolean conversions are known findings with sentinels.", ref="6 C16"),
- "C17": dict(cat="exploration", tech="plan well-formedness monitor over the optimized RecExpr + build/execute under catch_unwind in a disposable runner",
+ "C17": dict(cat="exploration", tech="plan well-formedness monitor over the optimized RecExpr + build/execute under catch_unwind in a disposable runner; termination decided on the runner's own CPU time (300 CPU-seconds, load-independent)",
    text="Generated statements with every generator feature on are bound, optimized and inspected: no apply/in/exists/max1row left, consistent join key lists, residuals only where the executor allows, same output types as the bound plan, and building + running the plan must not panic; optimizer panics are violations, a watchdog is inconclusive.",
    note="The walker is the harness's own (not the repo's resolve_column_index). Execution errors (type, overflow) are not planning defects.", ref="6 C17"),
 }
